@@ -68,6 +68,28 @@ def gen_dh(rng, tier, mult):
     return cases
 
 
+def gen_dhfail(rng, tier, mult):
+    """OpenSSL allocation failure at every allocation index of one call, followed by fault-free calls in the same process:
+    a call may fail, but a success must carry the specified value (also afterwards: nothing may be poisoned)."""
+    n = (120 if tier == "quick" else 1500) * mult
+    cases = []
+    for ci in range(n):
+        r = rng.fork("f%d" % ci)
+        ops = []
+        for _ in range(r.range(1, 3)):
+            k = r.choice([1, 2, 3, 4, 5]) if r.chance(1, 4) else r.range(1, 70)     # the very first allocations of a process too
+            if r.chance(1, 2):
+                ops.append("pubf %d %s %s" % (k, hx(rnd32(r)), hx(rnd32(r))))
+            else:
+                ops.append("computef %d %s %s %s" % (k, hx(peer(r)), hx(rnd32(r)), hx(rnd32(r))))
+            # fault-free calls afterwards (k = 0: no failure)
+            ops.append("pubf 0 %s %s" % (hx(rnd32(r)), hx(rnd32(r))))
+            if r.chance(1, 2):
+                ops.append("computef 0 %s %s %s" % (hx(peer(r)), hx(rnd32(r)), hx(rnd32(r))))
+        cases.append(ops)
+    return cases
+
+
 def classify(case, out):
     tags = []
     for o in case:
@@ -85,7 +107,14 @@ def components(ctx):
         rule="pub/compute/generate with private and blinding values from {0, 2^256-1, leading-zero, tiny, random}, peers from "
              "{0,1,2,p-2,p-1,p,p+1,2^2047,2^2048-1,random}, entropy failure injected; sanity on p+-1, single-bit/byte neighbours of p, random; "
              "non-trivial = at least one exponentiation; distinct by hash of the op list",
-        classify=classify, ldflags=["-lcrypto"])]
+        classify=classify, ldflags=["-lcrypto"]),
+      vlib.Component(
+        "dhfail", "h_dh.c", SRCS, ["dhmon", "model"], gen_dhfail,
+        nontrivial=lambda c: any(not o.split()[1] == "0" for o in c),
+        rule="the k-th (k=1..70) OpenSSL allocation of a generate_pub/compute call fails, then fault-free calls follow in the same process; "
+             "judged by a monitor: -1 is allowed, a reported success must equal Spec.DH; non-trivial = a failure is injected",
+        classify=lambda case, out: ["dhfail:" + ("fail" if o.startswith("fail") else "ok") for o in out],
+        monitor_args=["dhmon"], ignore_l2=True, ldflags=["-lcrypto"], fresh_process=True)]
 
 
 def check(ctx):
